@@ -18,6 +18,7 @@ type jgen struct {
 	f64e   []string
 	maxFan int
 	size   int // rough byte size, to decide when a container must use the large format
+	budget int // stop growing beyond this many bytes
 }
 
 func (g *jgen) str(n int) string {
@@ -70,7 +71,7 @@ func (g *jgen) scalar() string {
 		return fmt.Sprintf("d:%d", bits)
 	case 8, 9, 10:
 		n := r.Pick(0, 1, 5, 20, 127, 128, 300)
-		if r.Chance(1, 40) && g.size < 140000 {
+		if r.Chance(1, 40) && g.size < g.budget {
 			n = r.Pick(16383, 16384, 70000)
 		}
 		g.size += n
@@ -101,7 +102,7 @@ func (g *jgen) scalar() string {
 func (g *jgen) doc(depth int) string {
 	r := g.r
 	// size budget: the Lean model works on byte lists, documents far beyond the 64 KiB format switch cost minutes
-	if depth == 0 || g.size > 140000 || r.Chance(2, 5) {
+	if depth == 0 || g.size > g.budget || r.Chance(2, 5) {
 		return g.scalar()
 	}
 	n := r.Intn(6)
@@ -176,7 +177,11 @@ func genC14(r *RNG, tier string) []Case {
 		n, depth, fan = 12000, 6, 40
 	}
 	for i := 0; i < n; i++ {
-		g := &jgen{r: r, maxFan: fan}
+		// most documents stay small; one in sixteen may grow past the 64 KiB switch to the large format by itself
+		g := &jgen{r: r, maxFan: fan, budget: 20000}
+		if i%16 == 0 {
+			g.budget = 140000
+		}
 		d := g.doc(depth)
 		class := "scalar"
 		if strings.HasPrefix(d, "o") || strings.HasPrefix(d, "a") {
@@ -246,7 +251,7 @@ func genC14(r *RNG, tier string) []Case {
 	}
 	// malformed stream (correspondence only): truncations of well-formed scalars and flat containers
 	for i := 0; i < 300; i++ {
-		g := &jgen{r: r, maxFan: 4}
+		g := &jgen{r: r, maxFan: 4, budget: 20000}
 		d := g.doc(1)
 		ans, err := theDriver.Ask("jdoc doc=" + d + func() string {
 			if len(g.f64e) > 0 {
